@@ -82,6 +82,10 @@ def run(R):
     rv_cases = ["%s %s" % (hx(b"old binary"), hx(S.CANON[m])) for m in S.METHODS] + ["%s %s" % (hx(b"x"), hx(b"$1$bad:salt")), "%s %s" % (hx(b"x"), hx(b"*0"))]
     for case in rv_cases:
         for sym, ver in RV_SYMS: ops.append("RV %s %s %s" % (sym, ver, case))
+    # the re-entrant DES pair on objects an old binary never cleared (glibc only asked for `initialized = 0`): filled 0xff / random / pattern (seeded/C20f)
+    for i, fill in enumerate("frp"):
+        ops += ["O %d %s %d %d" % (i + 2, fill, i, R.rng.randrange(1 << 30)), "SKR %d 0123456789abcdef %d" % (i + 2, i), "ENR %d 4e6f772069732074 0 %d" % (i + 2, i),
+                "ENR %d 3fa40e8a984d4815 1 0" % (i + 2)]
     ops += ["SK 0123456789abcdef 3", "EN 4e6f772069732074 0 5", "EN 3fa40e8a984d4815 1 0", "SKR 1 133457799bbcdff1 9", "ENR 1 0123456789abcdef 0 2", "ENR 1 85e813540f0ab405 1 2"]
     rb = hx(bytes(R.rng.randrange(256) for _ in range(32)))
     for m in S.METHODS:
